@@ -332,7 +332,19 @@ func symConvHook(i *interpreter, utDst, utSrc types.Type, x value) (value, bool)
 	case sym:
 		if b, ok := utDst.(*types.Basic); ok {
 			if b.Kind() == types.String {
-				unsupported("conversion of symbolic integer to string")
+				// string(rune): only the ASCII range is modelled
+				c := i.ex.Ctx
+				var ascii *smt.Term
+				if i.ex.IntMode {
+					ascii = c.And(c.IntCmp(">=", x.t, c.IntC(0)), c.IntCmp("<", x.t, c.IntC(0x80)))
+				} else {
+					bits, _, _ := kindInfo(x.k)
+					ascii = c.BVCmp("bvult", x.t, c.BVC(bits, 0x80))
+				}
+				if !i.ex.Branch(ascii) {
+					unsupported("conversion of a symbolic non-ASCII code point to string")
+				}
+				return mkStr([]value{i.symConv(types.Uint8, x)}), true
 			}
 			return i.symConv(b.Kind(), x), true
 		}
